@@ -27,7 +27,8 @@ from vlib.core import enc_rat, enc_bool, VERIF
 RULE = ('edge lists: exhaustive lists of <= 2 edges over 3 identifiers (int and str) x all 32 flag combinations (thorough: all '
         'lists of 3 edges x 4 sampled flag combinations), sampled lists of 1..7 edges over int / gapped int / negative int / '
         '64-bit int beyond 2^53 (as ints and as numeric strings) / letter / mixed / numeric-string identifiers with duplicate, '
-        'reciprocal, self-loop, zero, negative, dyadic and boolean weights x flags x shape x matrix_only, list and ndarray '
+        'reciprocal, self-loop, zero, negative, dyadic and boolean weights, lists whose weights are all near-integers (1e5..2e9 '
+        'plus .25/.5/.75) or all tiny (2^-27..2^-30) x flags x shape x matrix_only, list and ndarray '
         'inputs, adjacency lists and dicts; CSV files with each delimiter (tab , ; space and an explicit |), 0..3 header lines '
         '(# / % / mixed / other characters through comments=), comment lines and blank lines between and after the rows, names '
         'containing another candidate delimiter or a comment character, CRLF / CR line ends, blank lines of other white space, '
@@ -203,6 +204,17 @@ def py_edges(edges, style=0):
     return [(a, b) if w is None else (a, b, py_weight(w, style)) for a, b, w in edges]
 
 
+def weights_kind(edges):
+    """'none', 'near-integer' (every weight within numpy's allclose tolerance of an integer, not all integral), 'other'."""
+    ws = [w for _, _, w in edges if w is not None and w != TEXT]
+    if not ws:
+        return 'none'
+    if all(abs(w - round(w)) <= Fraction(1, 10 ** 8) + Fraction(1, 10 ** 5) * abs(round(w)) for w in ws) \
+            and any(Fraction(w).denominator != 1 for w in ws):
+        return 'near-integer'
+    return 'other'
+
+
 def ids_kind(edges):
     ids = [x for a, b, _ in edges for x in (a, b)]
     if all(isinstance(x, int) for x in ids):
@@ -267,7 +279,7 @@ def edge_case(edges, fl, via='list', style=0):
     ee = enc_edges(edges)
     run = 'c18.edges %s %s' % (fe, ee)
     spec = None
-    sig = {'entry': 'from_edge_list', 'via': via, 'ids': ids_kind(edges)}
+    sig = {'entry': 'from_edge_list', 'via': via, 'ids': ids_kind(edges), 'weights': weights_kind(edges)}
     sig.update({k: fl[k] for k in FLAG_KEYS})
     desc = {'f': 'from_edge_list', 'edges': [[a, b, None if w is None else str(w)] for a, b, w in edges],
             'flags': fl, 'via': via, 'style': style}
@@ -321,11 +333,13 @@ def adj_case(adj, fl, as_dict):
 # CSV
 # ------------------------------------------------------------------------------------------------
 def fmt_w(w):
+    """Exact decimal text of a dyadic weight (no exponent: 2**-28 is written 0.0000000037252902984619140625)."""
     f = Fraction(w)
     if f.denominator == 1:
         return str(f.numerator)
-    s = repr(float(f))
-    return s
+    from decimal import Decimal, getcontext
+    getcontext().prec = 80
+    return format(Decimal(f.numerator) / Decimal(f.denominator), 'f')
 
 
 def csv_text(rows, delim, header, final_newline):
@@ -378,7 +392,7 @@ def csv_case(text, lines, args, fl, edges, tag, spec_only=False):
            'rows': len(lines), 'comments': args.get('comments') or 'default',
            'header': {0: 'none', 1: 'single'}.get(len({ln[:1] for ln in lines
                                                         if ln[:1] and ln[:1] in (args.get('comments') or '#%')}), 'mixed'),
-           'layout': args.get('data_structure') or 'guessed'}
+           'layout': args.get('data_structure') or 'guessed', 'weights': weights_kind(edges or [])}
     sig.update({k: fl[k] for k in FLAG_KEYS})
     desc = {'f': 'from_csv', 'text': text, 'args': args, 'flags': fl,
             'edges': None if edges is None else [[a, b, None if w is None else str(w)] for a, b, w in edges]}
@@ -736,6 +750,17 @@ INT_IDS = [0, 1, 2]
 BIG_IDS = [2 ** 53, 2 ** 53 + 1, 2 ** 53 + 2, 2 ** 62 + 1, 2 ** 62 + 3, -(2 ** 53 + 1), 10 ** 17 + 1, 10 ** 17 + 2]
 STR_IDS = ['a', 'b', 'ab']
 WEIGHTS = [Fraction(1), Fraction(2), Fraction(3), Fraction(0), Fraction(-1), Fraction(1, 2), Fraction(5, 4)]
+# weights that are all *close to* an integer without being one (the cast to int is decided on the whole list:
+# `all(weights == weights.astype(int))`): large magnitudes with a fractional part (counts, timestamps), and very
+# small ones; dyadic, so that float64 sums of a list drawn from ONE of the pools are exact
+WEIGHTS_BIGFRAC = [Fraction(200001, 2), Fraction(1000001, 4), Fraction(6400000003, 4), Fraction(6800000001, 4),
+                   Fraction(3200000001, 2), Fraction(-400001, 4), Fraction(2 ** 31 * 4 + 3, 4), Fraction(1600000000)]
+WEIGHTS_TINY = [Fraction(1, 2 ** 28), Fraction(1, 2 ** 30), Fraction(3, 2 ** 30), Fraction(5, 2 ** 29), Fraction(1, 2 ** 27),
+                Fraction(-1, 2 ** 29)]
+
+
+def weight_pool(wm):
+    return {'any': WEIGHTS, 'small': WEIGHTS[:3], 'bigfrac': WEIGHTS_BIGFRAC, 'tiny': WEIGHTS_TINY}[wm]
 
 
 def all_flag_combos():
@@ -789,7 +814,7 @@ def rand_edges(rng, pool, k, wmode):
             a = b = rng.choice(pool)              # self-loop
         else:
             a, b = rng.choice(pool), rng.choice(pool)
-        edges.append((a, b, None if wmode == 'none' else rng.choice(WEIGHTS if wmode == 'any' else WEIGHTS[:3])))
+        edges.append((a, b, None if wmode == 'none' else rng.choice(weight_pool(wmode))))
     return edges
 
 
@@ -808,16 +833,16 @@ def gen_edge_cases(ctx, out, earlies):
             combos = list(all_flag_combos())
             for es in triples:
                 for fl in rng.sample(combos, 4):
-                    wm = rng.choice(['none', 'small', 'any'])
-                    edges = [(a, b, None if wm == 'none' else rng.choice(WEIGHTS if wm == 'any' else WEIGHTS[:3])) for a, b in es]
+                    wm = rng.choice(['none', 'small', 'any', 'bigfrac', 'tiny'])
+                    edges = [(a, b, None if wm == 'none' else rng.choice(weight_pool(wm))) for a, b in es]
                     c, e = edge_case(edges, dict(fl))
                     out.append(c)
                     earlies.append((c, e))
             ctx.count('exhaustive-3-edge-lists:int', len(triples) * 4)
         for es in lists:
             for fl in all_flag_combos():
-                wm = rng.choice(['none', 'small', 'any'])
-                edges = [(a, b, None if wm == 'none' else rng.choice(WEIGHTS if wm == 'any' else WEIGHTS[:3])) for a, b in es]
+                wm = rng.choice(['none', 'small', 'any', 'bigfrac', 'tiny'])
+                edges = [(a, b, None if wm == 'none' else rng.choice(weight_pool(wm))) for a, b in es]
                 c, e = edge_case(edges, fl)
                 out.append(c)
                 earlies.append((c, e))
@@ -826,7 +851,7 @@ def gen_edge_cases(ctx, out, earlies):
     for _ in range(1500 if quick else 20000):
         kind, pool = id_pool(rng)
         k = rng.randint(1, 7)
-        wm = rng.choice(['none', 'small', 'any', 'any'])
+        wm = rng.choice(['none', 'small', 'any', 'any', 'bigfrac', 'tiny'])
         edges = rand_edges(rng, pool, k, wm)
         fl = rand_flags(rng)
         if kind in ('big', 'bigstr'):
@@ -902,7 +927,7 @@ def gen_csv_cases(ctx, out, earlies):
             if rng.random() < 0.3:
                 pool.append(str(rng.randint(0, 9)))          # a number among the names
         k = rng.choice([1, 1, 2, 3, 4, 6])
-        wm = rng.choice(['none', 'small', 'any'])
+        wm = rng.choice(['none', 'small', 'any', 'bigfrac', 'tiny'])
         edges = rand_edges(rng, pool, k, wm)
         rows = [[a, b] if w is None else [a, b, fmt_w(w)] for a, b, w in edges]
         header = rng.choice(headers)
